@@ -7,6 +7,7 @@ package main
 import (
 	"errors"
 	"fmt"
+	"strings"
 
 	flyt "github.com/mark3labs/flyt"
 	"github.com/mark3labs/flyt/zzvrt/core"
@@ -76,6 +77,11 @@ func boolInt(b bool) int {
 }
 
 func shapeScenario(name string, d *shapeDesc, kinds []int, mk func(root *spec) (func(h *H, c call) []answer, func(h *H)), runAsNode bool) Scenario {
+	return shapeScenarioRuns(name, d, kinds, mk, runAsNode, 1)
+}
+
+// shapeScenarioRuns: the same flow object is run `runs` times with independent scripts.
+func shapeScenarioRuns(name string, d *shapeDesc, kinds []int, mk func(root *spec) (func(h *H, c call) []answer, func(h *H)), runAsNode bool, runs int) Scenario {
 	var h *H
 	// the spec tree is an immutable description: built once per scenario
 	var root *spec
@@ -93,28 +99,33 @@ func shapeScenario(name string, d *shapeDesc, kinds []int, mk func(root *spec) (
 			setup(h)
 		}
 		node := h.build(root)
-		var a flyt.Action
-		var err error
-		if runAsNode {
-			a, err = flyt.Run(h.ctx, node, h.store)
-		} else {
-			err = node.(*flyt.Flow).Run(h.ctx, h.store)
-			if err == nil {
-				a = "?" // Flow.Run does not report the action
+		for r := 0; r < runs; r++ {
+			if r > 0 {
+				h.nextRun()
 			}
-		}
-		core.Logf("run returned (%q, %v)", a, err)
-		if runAsNode {
-			h.finish(a, err)
-		} else {
-			h.finishErrOnly(err)
+			var a flyt.Action
+			var err error
+			if runAsNode {
+				a, err = flyt.Run(h.ctx, node, h.store)
+			} else {
+				err = node.(*flyt.Flow).Run(h.ctx, h.store)
+				if err == nil {
+					a = "?" // Flow.Run does not report the action
+				}
+			}
+			core.Logf("run %d returned (%q, %v)", r+1, a, err)
+			if runAsNode {
+				h.finish(a, err)
+			} else {
+				h.finishErrOnly(err)
+			}
 		}
 	}
 	return Scenario{Name: name, Body: body, Check: stdCheck(func() string {
 		if h == nil {
 			return "?"
 		}
-		return h.traceString() + h.outcomeTag
+		return strings.Join(append(append([]string(nil), h.hist...), h.traceString()), " | ") + h.outcomeTag
 	})}
 }
 
